@@ -48,7 +48,7 @@ def c06(tier):
     for k in range(kmax):
         import itertools
         for kinds in itertools.product(range(3), repeat=k + 1):
-            jobs.append((H('vm', 'HarnessC06Seq'), P('vm'), [[k] + list(kinds)], {}))
+            jobs.append((H('vm', 'HarnessC06Seq'), P('vm'), [[k] + list(kinds)], {'split_after': 150, 'job_timeout': 2400} if tier != 'quick' else {}))
     meta = {
         'explanation': 'programs assembled from the allocating instructions (OpRange with symbolic 64-bit bounds, OpArray and OpMap literals of 0..3 elements) in every order, k=%d..%d constructs per run, run on the real VM.Run dispatch loop under a symbolic budget; z3 decides for all bounds and budgets that the run succeeds iff the number of elements created (reference: len of each collection, computed in unsigned arithmetic) is below the budget, and that the only failure is the budget error; makeRange contract (len and elements) for all bounds with <= 8 elements; constRange.Exit on a literal range with symbolic bounds: the constant has the elements of the range and an allocation oracle reports any make([]int, n) whose n can exceed 10^6' % (1, kmax),
         'bounds': {'constructs per run': kmax, 'range bounds': 'all int64 values', 'budget': '1..2^20 (default 10^6 is inside)', 'admitted range size on explored paths': '<= 8 elements (makeRange loop unrolled); larger ranges only on refused paths', 'literals': '0..3 elements'},
